@@ -301,4 +301,8 @@ impl FeltExp for u64 { open spec fn exp_nat(self) -> nat { self as nat } }
 impl FeltExp for u128 { open spec fn exp_nat(self) -> nat { self as nat } }
 
 } // verus!
+// Debug impls (needed by `unwrap`); outside verus!, never executed
+impl core::fmt::Debug for FeltIsZeroError { fn fmt(&self, _f: &mut core::fmt::Formatter<'_>) -> core::fmt::Result { Ok(()) } }
+impl<T> core::fmt::Debug for TryFromBigIntError<T> { fn fmt(&self, _f: &mut core::fmt::Formatter<'_>) -> core::fmt::Result { Ok(()) } }
+impl core::fmt::Debug for Felt { fn fmt(&self, _f: &mut core::fmt::Formatter<'_>) -> core::fmt::Result { Ok(()) } }
 } // mod prelude
